@@ -27,7 +27,7 @@ Proof. intros E H. unfold wp, scopeExit. rewrite E. exact H. Qed.
 
 Lemma step_Dname fuel : D_callargs tbls fuel -> D_name tbls (S fuel).
 Proof.
-  intros IHc s g top rest H I0 H0 Est Hroom HTM. cbn [parseNamePathOrMethodCall].
+  intros IHc s g top rest H I0 H0 Est Hroom HTM Hnnp. cbn [parseNamePathOrMethodCall].
   pose proof (fi_rok _ _ H) as Hrok. pose proof (roomD_lp _ _ Hroom) as Hlp.
   pose proof (fi_R _ _ H) as HR. pose proof (R_gwf _ _ HR) as Hwf.
   pose proof (scope_topD _ _ _ _ H Est) as Htop.
@@ -118,7 +118,7 @@ Proof.
     apply glive_append in Hl5m. destruct (Hlv2 m Hl5m) as [F|F]; [contradiction|]. subst m.
     destruct Hp5 as (po5 & Hpo5 & Eop5). assert (po5 = mo) by congruence. subst. rewrite Hmop in Eop5. discriminate. }
   assert (HTM5 : TM NoX s5 g5).
-  { eapply (TM_frame2 NoX NoX NoP (eq top) NoP s g s5 g5 Hwf HR HTM F5); try (intros; contradiction); try apply Eok_NoP.
+  { eapply (TM_frame2 NoX NoX NoP (eq top) NoP s g s5 g5 Hwf HR HTM F5); try (intros; contradiction); try apply Eok_NoP; [intros i <-; exact Hnnp|].
     intros m mo Hm Hmop Hnl. exfalso. eapply Hnew5; eauto. }
   assert (Est5 : p_scopeStack s5 = top :: rest) by exact Est.
   destruct (negb (o_opcode tgo5 =? aml_pOpMethod)) eqn:Enm.
@@ -155,7 +155,7 @@ Proof.
   { unfold s8, s7, s6. pcbn. rewrite !get_tset.
     assert (Hne : (target =? p) = false) by (apply N.eqb_neq; intros E; apply Hfresh2; rewrite <- E; exact Hlt). rewrite !Hne. exact Htgo5. }
   assert (HTM8 : TM NoX s8 g5).
-  { eapply (TM_frame2 NoX NoX NoP (eq top) NoP s g s8 g5 Hwf HR HTM F8); try (intros; contradiction); try apply Eok_NoP.
+  { eapply (TM_frame2 NoX NoX NoP (eq top) NoP s g s8 g5 Hwf HR HTM F8); try (intros; contradiction); try apply Eok_NoP; [intros i <-; exact Hnnp|].
     intros m mo Hm Hmop Hnl. exfalso.
     assert (Hl5m : glive g5 m) by (apply (R_live_glive _ _ (fi_R _ _ H8)); exists mo; split; [exact Hm|rewrite Hmop; discriminate]).
     apply glive_append in Hl5m. destruct (Hlv2 m Hl5m) as [F|F]; [contradiction|]. subst m.
@@ -173,7 +173,10 @@ Proof.
     assert (H05 : glive g5 0) by (apply glive_append; apply (ge_live _ _ Hext2); exact H0).
     assert (Hroom8 : roomD 0 s8).
     { assert (EP : Psi s8 = Psi s7) by reflexivity. unfold roomD in *. lia. }
-    wbi tbls I8. eapply wp_weaken; [apply (IHc (N.to_nat (N.land vv 7)) s8 g5 p (top :: rest) H8 I8 H05 Est8 Hroom8 HTM8)| |].
+    assert (Hnnp8 : nnp s8 p).
+    { intros co Hco. unfold s8, s7, s6 in Hco. pcbn_in Hco. rewrite !get_tset, !N.eqb_refl in Hco. destruct Hp5 as (po5 & Hpo5 & _). rewrite Hpo5 in Hco.
+      cbn [option_map] in Hco. inversion Hco. cbn [o_infoIndex set_infoIndex set_opcode]. intros E. rewrite E in Hidx. vm_compute in Hidx. discriminate. }
+    wbi tbls I8. eapply wp_weaken; [apply (IHc (N.to_nat (N.land vv 7)) s8 g5 p (top :: rest) H8 I8 H05 Est8 Hroom8 HTM8 Hnnp8)| |].
     { auto. }
     intros ok2 s9 (g9 & H9 & X9 & Fr9 & Psi9 & Hok9) I9.
     destruct (xd_scopes _ _ _ _ X9) as (extra & Es9). rewrite Est8 in Es9.
